@@ -189,7 +189,7 @@ func genC19(seed uint64, index int, tier string) *run.Plan {
 	for i := 0; i < nalt; i++ {
 		alter := 0
 		if g.Intn(5) != 0 {
-			alter = 1 + g.Intn(21)
+			alter = 1 + g.Intn(22)
 		}
 		p.Faults = append(p.Faults, run.Fault{Kind: "alter", A: alter, B: g.Intn(1 << 16), C: g.Intn(8)})
 	}
@@ -442,6 +442,14 @@ func execC19(t *testing.T, w *core.World, p *run.Plan, r *run.Result) {
 			resign(apriv)
 		case 19: // no state-init at all
 			proof.Proof.StateInit = ""
+		case 22:
+			// the same account hash under another workchain number, also one that is congruent modulo 2^8 or 2^16
+			// (a workchain is a signed 32-bit number in the signed message)
+			if parts := strings.Split(proof.Address, ":"); len(parts) == 2 {
+				wc, _ := strconv.ParseInt(parts[0], 10, 32)
+				wc += []int64{256, -256, 512, 65536, -65536, 1 << 24, 1, -1, 128}[aC%9] * int64(1+aB%3)
+				proof.Address = fmt.Sprintf("%d:%s", wc, parts[1])
+			}
 		case 21:
 			// descriptor-level corruption of the state-init container (level mask, exotic flag, reference count,
 			// data length, exotic type of one cell)
@@ -700,7 +708,7 @@ func stripNums(s string) string {
 func init() {
 	run.Register(&run.Engine{ID: "C19", Gen: genC19, Exec: execC19, Meta: run.Meta{
 		Technique:   "deterministic simulation: three-party timed protocol (wallet, adversarial channel, server) plus a failing/lying get-method executor under one simulated clock; reference acceptance model as oracle",
-		Rule:        "one run = a history: the server issues payloads, a wallet (version x key x workchain, clock skew up to +-10 min) signs after a drawn delay, the channel delivers the proof unaltered or with one of 20 alterations (field substitutions, bit flips, attacker-built state-inits incl. no code / no data / unknown contract / multi-root / garbage, wrong-length payload or signature, full attacker proof), the server checks it 1-3 times at drawn instants around the payload/proof lifetimes, possibly at a server with another secret or other lifetimes, with an executor that answers with the wallet's key, another key, an error, a malformed stack, a short key, a failure exit code, -2^256, a tiny integer or zero, possibly after a delay; the payload and domain checks are passed as the server's own methods, as (verdict, nil) wrappers or as error-reporting wrappers. Non-trivial = at least one check ran; distinct = distinct event-log digest. Abstract state = (alteration, executor mode, server, reference verdict and reason).",
+		Rule:        "one run = a history: the server issues payloads, a wallet (version x key x workchain, clock skew up to +-10 min) signs after a drawn delay, the channel delivers the proof unaltered or with one of 22 alterations (field substitutions, bit flips, attacker-built state-inits incl. no code / no data / unknown contract / multi-root / garbage, wrong-length payload or signature, full attacker proof, descriptor-level container corruption, small-order key forgery, the same account hash under a congruent workchain number), the server checks it 1-3 times at drawn instants around the payload/proof lifetimes, possibly at a server with another secret or other lifetimes, with an executor that answers with the wallet's key, another key, an error, a malformed stack, a short key, a failure exit code, -2^256, a tiny integer or zero, possibly after a delay; the payload and domain checks are passed as the server's own methods, as (verdict, nil) wrappers or as error-reporting wrappers. Non-trivial = at least one check ran; distinct = distinct event-log digest. Abstract state = (alteration, executor mode, server, reference verdict and reason).",
 		Real:        []string{"tonconnect.Server: GeneratePayload, CheckPayload, CheckProof, ParseStateInit, getWalletPubKey", "tonconnect.CreateSignedProof", "abi.GetPublicKey decoding of the executor's stack", "wallet.GenerateStateInit, ton.ParseAccountID, boc/tlb decoders underneath"},
 		Simulated:   []string{"clock (testing/synctest) incl. wallet clock skew", "the channel between wallet and server (adversary)", "the abi.Executor party", "crypto/rand (seeded)"},
 		Assumptions: []string{"within +-1 s of an expiry boundary the verdict is not judged (the implementation truncates to Unix seconds; the property does not fix the rounding)", "proof timestamps in the future are not judged as expired", "alteration 20 forges a signature for the all-zero key (an Ed25519 point of order 4) with github.com/oasisprotocol/curve25519-voi; other small-order keys are not tried", "boc.DeserializeBocBase64 is trusted to enumerate the cells of a state-init; the key offset per wallet version is laid out by the harness"},
